@@ -1,6 +1,6 @@
 # DELTA_BINARY_PACKED / DELTA_LENGTH_BYTE_ARRAY / DELTA_BYTE_ARRAY  (C08 decoders, C11/C12 encoder side)
 BITPACK_STUB = 'stubs/delta_stubs.c: carquet_bitunpack_32 / carquet_bitpack_32 as assumed contracts ' \
-               '(reads/writes ceil(count/8)*bit_width bytes, count uint32 values; proved on the real bitpack.c by the bitpack family)'
+               '(reads/writes exactly ceil(count*bit_width/8) bytes, count uint32 values; proved on the real bitpack.c by the bitpack family)'
 FZ_SRC = ['src/encoding/delta.c', 'src/core/bitpack.c']
 RP_DELTA = dict(kind='fuzz', harness='replay/fz/delta_decode.c', sources=FZ_SRC, max_len=96, secs=20)
 RP_LENGTH = dict(kind='fuzz', harness='replay/fz/delta_length_decode.c',
@@ -48,19 +48,18 @@ D11 = dict(overlays=['contracts/delta.ovl'], harness='harness/C11/delta.c', prop
 JOBS += [
     dict(name='c11_delta_zigzag_uleb_roundtrip', entry='h_zigzag_uleb_roundtrip', loop_contracts=False, unwind=11,
          functions=['zigzag_encode64', 'zigzag_decode64', 'write_uleb128', 'read_uleb128'], **D11),
-    dict(name='c11_delta_write_uleb128', entry='h_write_uleb128', enforce='write_uleb128', loop_contracts=False,
+    dict(name='c11_delta_write_uleb128', entry='h_write_uleb128', enforce='write_uleb128', loop_contracts=False, defines=['CQV_ULEB_BYTES=1'],
          unwindset=['write_uleb128.0:11'], **D11),
     dict(name='c11_delta_bit_width_required', entry='h_bit_width_required', enforce='bit_width_required', loop_contracts=False,
          unwindset=['bit_width_required.0:66'], unwind=66, **D11),
 ] + [
     dict(name=nm, entry='h_flush_block', enforce='delta_encoder_flush_block',
-         replace=['write_uleb128', 'bit_width_required'], min_loop_obligations=8, defines=defs,
-         unwindset=['delta_encoder_flush_block.2:5', 'delta_encoder_flush_block.9:5'], trusted=[BITPACK_STUB], timeout=900,
+         replace=['write_uleb128', 'bit_width_required'], min_loop_obligations=10, defines=defs,
+         trusted=[BITPACK_STUB], timeout=900,
          **dict(D11, props=pr))
     for nm, defs, pr in [
-        ('c11_delta_flush_block_safe', [], ['C11']),                              # writes < capacity, reads < 128 deltas, frame
+        ('c11_delta_flush_block_safe', [], ['C11']),   # writes < capacity, reads < 128 deltas, frame, bytes written == min-delta varint + 4 + packed_bytes_needed
         ('c11_delta_flush_block_fit', ['CQV_FLUSH_FIT=1'], ['C11']),              # every adjusted delta fits its mini-block width
-        ('c11_delta_flush_block_size', ['CQV_FLUSH_ACCOUNT=1'], ['C11', 'C12']),  # bytes written == header + packed_bytes_needed
         ('c12_delta_flush_block_spec_size', ['CQV_SPEC_SIZE=1'], ['C12']),        # packed_bytes_needed == sum 32*w/8 (Encodings.md)
     ]
 ] + [
@@ -71,35 +70,20 @@ JOBS += [
          replace=['write_uleb128', 'delta_encoder_flush_block'], min_loop_obligations=1, **D11),
 ]
 
-# contracts/delta.ovl leaves the two 4-iteration mini-block loops of delta_encoder_flush_block without a contract (they are
-# unwound); goto-instrument --apply-loop-contracts works on the whole translation unit, so every job that applies loop
-# contracts to delta.c unwinds them, whether or not the encoder is reachable from its entry.
-FLUSH_UNW = ['delta_encoder_flush_block.2:5', 'delta_encoder_flush_block.9:5']
 for _j in JOBS:
-    if _j['harness'] != 'harness/C11/delta.c':
-        continue
-    _j['defines'] = _j.get('defines', []) + ['CQV_DELTA_ENC=1']
-    if _j.get('loop_contracts', True):
-        _j['unwindset'] = [u for u in _j.get('unwindset', []) if u not in FLUSH_UNW] + FLUSH_UNW
+    if _j['harness'] == 'harness/C11/delta.c':
+        _j['defines'] = _j.get('defines', []) + ['CQV_DELTA_ENC=1']   # encoder contracts are compiled in only for these jobs
 
 # ---- status (wip=False only: ok on the unchanged tree AND a seeded breakage of the function was reported) ----
 DONE = ['c08_delta_read_uleb128', 'c08_delta_read_block', 'c08_delta_decoder_next', 'c08_delta_decode_int32',
         'c08_delta_decode_int64', 'c08_delta_length_decode', 'c08_delta_length_views_leak',
-        'c11_delta_zigzag_uleb_roundtrip', 'c11_delta_write_uleb128', 'c11_delta_bit_width_required']
+        'c11_delta_zigzag_uleb_roundtrip', 'c11_delta_write_uleb128', 'c11_delta_bit_width_required',
+        # ok since /repo d3d9d9d (bitunpack_32 partial group), cbbbeed (width > 64), afcedfb (prefix+suffix overflow);
+        # each fails again with its fix reverted / the seeded header and sign-extension mutations
+        'c08_delta_decoder_init', 'c08_delta_read_mini_block', 'c08_delta_strings_decode', 'c08_delta_strings_views_leak']
 NOTES = {
-    'c08_delta_decoder_init': 'FINDING: delta_decoder_init accepts headers whose mini-block size (block_size / mini_blocks) is not a '
-        'multiple of 8 (e.g. 4/4); delta_decoder_read_mini_block then calls carquet_bitunpack_32 with a partial group, which reads a '
-        'whole group: heap over-read (ASan: /tmp/delta/demo_overread.c). The ensures DELTA_DEC_HDR (mini-block size & 7 == 0) fails. '
-        'ok with /tmp/delta/fix_delta_decoder.diff applied.',
-    'c08_delta_read_mini_block': 'FINDING: width byte > 64 gives bytes_per_value > 8 and `<< (b * 8)` shifts a uint64_t by >= 64 '
-        '(UB, UBSan: /tmp/delta/demo_shift.c). ok with /tmp/delta/fix_delta_decoder.diff applied (reject bit_width > 64).',
-    'c08_delta_strings_decode': 'FINDING: prefix_len + suffix_len overflows int32 (UB) for inputs >= 2 GiB and a negative length is '
-        'returned with CARQUET_OK (/tmp/delta/demo_strings_overflow.c). ok with /tmp/delta/fix_delta_strings.diff applied.',
-    'c08_delta_strings_views_leak': 'same finding as c08_delta_strings_decode (signed overflow, negative reported length); '
-        'ok with /tmp/delta/fix_delta_strings.diff applied.',
     'c11_delta_flush_block_safe': 'undecided: SAT timeout (900 s); needs a cheaper decomposition of the ten loops',
     'c11_delta_flush_block_fit': 'undecided: not run to completion (see c11_delta_flush_block_safe)',
-    'c11_delta_flush_block_size': 'undecided: not run to completion (see c11_delta_flush_block_safe)',
     'c12_delta_flush_block_spec_size': 'undecided: not run to completion; expected to FAIL for widths 33..63 not divisible by 8 '
         '(encoder and decoder use ceil(w/8) whole bytes per value instead of bit packing)',
     'c11_delta_encode_int32': 'undecided: goto-instrument --enforce-contract aborts on the loop contract (tool error), not analysed',
